@@ -4,6 +4,7 @@ import (
 	"fmt"
 	"go/token"
 	"go/types"
+	"strings"
 
 	"golang.org/x/tools/go/ssa"
 )
@@ -26,6 +27,9 @@ func init() {
 			{ID: "R04b", Floor: 14, Doc: "typestate: index/writer/backing uses behind the not-closed (and not-finalized for writes) outcome", Run: ruleR04b},
 			{ID: "R04c", Floor: 4, Doc: "finalizers leave the store closed on every return", Run: ruleR04c},
 			{ID: "R04d", Floor: 6, Doc: "identity short-circuit only behind !StoreIdentityCIDs in Has/Get/GetStream/ShouldPut/store.Has", Run: ruleR04d},
+			{ID: "R04g", Floor: 1, Doc: "IsIdentity hands out the digest a multihash decoder produced (DecodedMultihash.Digest), never a fixed-offset slice of the raw multihash (the length prefix is a varint: 2 bytes only below 128)", Run: ruleR04g},
+			{ID: "R04h", Floor: 10, Doc: "option plumbing: wherever a repository function has a parameter named after a field of v2.Options and a caller passes a field of Options for it, it is that field (same-typed options swapped or the wrong line deleted compile and pass the suite)", Run: ruleR04h},
+			{ID: "R04i", Floor: 10, Doc: "every option constructor stores its own argument, unmodified, into the Options field it is named after (and nothing else)", Run: ruleR04i},
 			{ID: "R04f", Floor: 3, Doc: "lookups answer only for a confirmed candidate and report not-found otherwise (= R07a)", Run: ruleR07a},
 			{ID: "R04e", Floor: 3, Doc: "oversize CID: ShouldPut's non-false answers behind cidLen <= max; put paths write only behind err==nil && should", Run: ruleR04e},
 		},
@@ -121,11 +125,16 @@ func ruleR04a(c *Ctx, r *Report) {
 			r.InfraFail("%v", err)
 			continue
 		}
-		if len(fn.Params) != 6 {
-			r.Undec("predicate@"+fnKey(fn), c.Pos(fn.Pos()), "signature changed: expected (idx, c, maxIndexCidSize, storeIdentityCIDs, allowDuplicatePuts, useWholeCIDs)")
+		var whole *ssa.Parameter
+		for i, p := range fn.Params {
+			if optionFieldOfParam(fn, i) == "BlockstoreUseWholeCIDs" {
+				whole = p
+			}
+		}
+		if whole == nil {
+			r.Undec("predicate@"+fnKey(fn), c.Pos(fn.Pos()), "signature changed: no parameter carrying Options.BlockstoreUseWholeCIDs found (matched by name)")
 			continue
 		}
-		whole := fn.Params[5]
 		wholeTrue := boolParamEdges(fn, whole, true)
 		wholeFalse := boolParamEdges(fn, whole, false)
 		saw := map[string]bool{}
@@ -169,8 +178,7 @@ func ruleR04a(c *Ctx, r *Report) {
 		want := map[string]string{"HasExactCID": "cid", "HasMultihash": "multihash"}[m]
 		r.Check(gran[m] == want, "granularity@v2/index.InsertionIndex."+m, "-", "iterator compares at "+want+" granularity", fmt.Sprintf("%s is expected to decide at %s granularity but its iterator only establishes %s granularity", m, want, gran[m]))
 	}
-	// call sites pass the options by position
-	wantFields := []string{"MaxIndexCidSize", "StoreIdentityCIDs", "BlockstoreAllowDuplicatePuts", "BlockstoreUseWholeCIDs"}
+	// call sites pass each option to the parameter that carries its name
 	for _, fn := range c.RepoFuncs() {
 		ord := 0
 		eachInstr(fn, func(in ssa.Instruction) {
@@ -182,17 +190,44 @@ func ruleR04a(c *Ctx, r *Report) {
 			if !(funcIs(f, pkgStore, "", "ShouldPut") || funcIs(f, pkgStore, "", "Has")) {
 				return
 			}
+			callee := c.Prog.FuncValue(f)
+			if callee == nil {
+				return
+			}
 			ord++
 			key := fmt.Sprintf("option-args@%s#%s#%d", fnKey(fn), f.Name(), ord)
 			bad := ""
-			for i, wf := range wantFields {
-				if !loadsField(canon(ci.Call.Args[2+i]), modV2, "Options", wf) {
-					bad = fmt.Sprintf("argument %d of store.%s is not Options.%s", 3+i, f.Name(), wf)
+			n := 0
+			for i := range callee.Params {
+				wf := optionFieldOfParam(callee, i)
+				if wf == "" || i >= len(ci.Call.Args) {
+					continue
+				}
+				n++
+				if !loadsField(canon(ci.Call.Args[i]), modV2, "Options", wf) {
+					bad = fmt.Sprintf("argument %d (parameter %s) of store.%s is not Options.%s", i+1, callee.Params[i].Name(), f.Name(), wf)
 				}
 			}
-			r.Check(bad == "", key, c.Pos(in.Pos()), "options passed in declaration order", bad)
+			if n == 0 {
+				bad = "no option-carrying parameter recognised"
+			}
+			r.Check(bad == "", key, c.Pos(in.Pos()), fmt.Sprintf("%d option argument(s) match the parameters that carry their names", n), bad)
 		})
 	}
+}
+
+// optionFieldOfParam maps a parameter to the v2.Options field it carries, by
+// name (case-insensitive, with or without the Blockstore prefix).
+func optionFieldOfParam(fn *ssa.Function, i int) string {
+	name := strings.ToLower(fn.Params[i].Name())
+	for _, f := range []string{"MaxIndexCidSize", "StoreIdentityCIDs", "BlockstoreAllowDuplicatePuts", "BlockstoreUseWholeCIDs", "ZeroLengthSectionAsEOF", "MaxAllowedSectionSize", "MaxAllowedHeaderSize",
+		"DataPadding", "IndexPadding", "IndexCodec", "WriteAsCarV1", "TrustedCAR", "MaxTraversalLinks"} {
+		lf := strings.ToLower(f)
+		if name == lf || name == strings.TrimPrefix(lf, "blockstore") {
+			return f
+		}
+	}
+	return ""
 }
 
 type methodSpec struct {
@@ -426,7 +461,7 @@ func establishesOneOf(fn *ssa.Function, flags [][3]string) bool {
 					if b, ok := constBool(st.Val); ok && b {
 						setBlocks[in.Block()] = append(setBlocks[in.Block()], in)
 						for i := range in.Block().Succs {
-							cut[Edge{in.Block(), i}] = true
+							cut[Edge{From: in.Block(), Succ: i}] = true
 						}
 					}
 				}
@@ -465,7 +500,7 @@ func unclosedReturnsAssuming(fn *ssa.Function, closers []ssa.Instruction, flag [
 	for _, ci := range closers {
 		closerBlocks[ci.Block()] = true
 		for i := range ci.Block().Succs {
-			cut[Edge{ci.Block(), i}] = true
+			cut[Edge{From: ci.Block(), Succ: i}] = true
 		}
 	}
 	// the already-closed outcome also establishes closed == true
@@ -606,11 +641,17 @@ func ruleR04d(c *Ctx, r *Report) {
 		}
 		var off []Edge
 		if s.param >= 0 {
-			if s.param >= len(fn.Params) {
-				r.Undec(key, c.Pos(fn.Pos()), "signature changed")
+			var sp *ssa.Parameter
+			for i, p := range fn.Params {
+				if optionFieldOfParam(fn, i) == "StoreIdentityCIDs" {
+					sp = p
+				}
+			}
+			if sp == nil {
+				r.Undec(key, c.Pos(fn.Pos()), "signature changed: no parameter carrying Options.StoreIdentityCIDs (matched by name)")
 				continue
 			}
-			off = boolParamEdges(fn, fn.Params[s.param], false)
+			off = boolParamEdges(fn, sp, false)
 		} else {
 			off = condEdges(fn, matchFieldCond(modV2, "Options", "StoreIdentityCIDs", false))
 		}
@@ -637,11 +678,19 @@ func ruleR04e(c *Ctx, r *Report) {
 		return
 	}
 	key := "cidsize-gate@" + fnKey(fn)
-	if len(fn.Params) != 6 {
-		r.Undec(key, c.Pos(fn.Pos()), "signature changed")
+	var cidp, maxp *ssa.Parameter
+	for i, p := range fn.Params {
+		if optionFieldOfParam(fn, i) == "MaxIndexCidSize" {
+			maxp = p
+		}
+		if n := namedOf(p.Type()); n != nil && n.Obj().Name() == "Cid" && n.Obj().Pkg() != nil && strings.HasSuffix(n.Obj().Pkg().Path(), "go-cid") {
+			cidp = p
+		}
+	}
+	if cidp == nil || maxp == nil {
+		r.Undec(key, c.Pos(fn.Pos()), "signature changed: no cid.Cid parameter or no parameter carrying Options.MaxIndexCidSize (matched by name)")
 		return
 	}
-	cidp, maxp := fn.Params[1], fn.Params[2]
 	env := &AffEnv{}
 	isLen := func(v ssa.Value) bool {
 		a := env.of(canon(v))
@@ -732,3 +781,169 @@ func toInstrs(cs []ssa.CallInstruction) []ssa.Instruction {
 }
 
 var _ = types.Typ
+
+// ruleR04g: the bytes Get/GetSize answer for an identity CID are IsIdentity's digest.
+func ruleR04g(c *Ctx, r *Report) {
+	fn, err := c.Func(pkgStore, "", "IsIdentity")
+	if err != nil {
+		r.InfraFail("%v", err)
+		return
+	}
+	key := "identity-digest@" + fnKey(fn)
+	bad, undec, n := "", "", 0
+	for _, ret := range returnsOf(fn) {
+		if len(ret.Results) < 2 {
+			continue
+		}
+		if b, ok := constBool(ret.Results[1]); ok && !b {
+			continue
+		}
+		for _, o := range origins(ret.Results[0], originOpts{}) {
+			switch {
+			case o.Kind == "const":
+			case o.Kind == "field" && o.Field != nil && o.Field.Name() == "Digest" && o.Field.Pkg() != nil && strings.HasSuffix(o.Field.Pkg().Path(), "go-multihash"):
+				n++
+			case o.Kind == "call" && o.Fn != nil && o.Fn.Name() == "Hash":
+				bad = fmt.Sprintf("the digest returned at %s is a slice of the raw multihash bytes: the <code><length> prefix is two varints, so a fixed offset is wrong for digests of 128 bytes and more (Get would return the wrong bytes)", c.Pos(ret.Pos()))
+			default:
+				undec = fmt.Sprintf("the digest returned at %s comes from %s, which is not recognised as a multihash decoder", c.Pos(ret.Pos()), o.Kind)
+			}
+		}
+	}
+	switch {
+	case bad != "":
+		r.Viol(key, c.Pos(fn.Pos()), bad)
+	case undec != "" || n == 0:
+		r.Undec(key, c.Pos(fn.Pos()), undec+" (no DecodedMultihash.Digest origin found)")
+	default:
+		r.Hold(key, c.Pos(fn.Pos()), "digest = multihash.Decode(key.Hash()).Digest")
+	}
+}
+
+func ruleR04h(c *Ctx, r *Report) {
+	n := 0
+	for _, fn := range c.RepoFuncs() {
+		for _, g := range withAnon(fn) {
+			ord := map[string]int{}
+			eachInstr(g, func(in ssa.Instruction) {
+				ci, ok := in.(ssa.CallInstruction)
+				if !ok {
+					return
+				}
+				callee := ci.Common().StaticCallee()
+				if callee == nil || len(callee.Blocks) == 0 || callee.Pkg == nil {
+					return
+				}
+				args := ci.Common().Args
+				matched := 0
+				bad := ""
+				for i := range callee.Params {
+					wf := optionFieldOfParam(callee, i)
+					if wf == "" || i >= len(args) {
+						continue
+					}
+					fv, _ := fieldOfLoad(canon(args[i]))
+					if fv == nil || !isOptionsField(fv) {
+						continue
+					}
+					matched++
+					if fv.Name() != wf {
+						bad = fmt.Sprintf("parameter %s of %s receives Options.%s", callee.Params[i].Name(), fnKey(callee), fv.Name())
+					}
+				}
+				if matched == 0 {
+					return
+				}
+				n++
+				base := fnKey(g) + "#" + callee.Name()
+				ord[base]++
+				r.Check(bad == "", fmt.Sprintf("option-plumbing@%s#%d", base, ord[base]), c.Pos(in.Pos()), fmt.Sprintf("%d option argument(s) reach the parameters named after them", matched), bad)
+			})
+		}
+	}
+	r.Count("call sites passing Options fields to option-named parameters", n)
+}
+
+func isOptionsField(fv *types.Var) bool {
+	return fv.Pkg() != nil && fv.Pkg().Path() == modV2 && fv.IsField() && optionsFieldNames()[fv.Name()]
+}
+
+func optionsFieldNames() map[string]bool {
+	return map[string]bool{"DataPadding": true, "IndexPadding": true, "IndexCodec": true, "ZeroLengthSectionAsEOF": true, "MaxIndexCidSize": true,
+		"StoreIdentityCIDs": true, "BlockstoreAllowDuplicatePuts": true, "BlockstoreUseWholeCIDs": true, "MaxTraversalLinks": true, "WriteAsCarV1": true,
+		"TraversalPrototypeChooser": true, "TrustedCAR": true, "MaxAllowedHeaderSize": true, "MaxAllowedSectionSize": true}
+}
+
+func ruleR04i(c *Ctx, r *Report) {
+	p := c.Pkgs[modV2]
+	if p == nil {
+		r.InfraFail("package %s not loaded", modV2)
+		return
+	}
+	norm := func(s string) string {
+		s = strings.ToLower(s)
+		for _, pre := range []string{"blockstore", "with", "use"} {
+			s = strings.TrimPrefix(s, pre)
+		}
+		return s
+	}
+	sc := p.Types.Scope()
+	for _, name := range sc.Names() {
+		f, ok := sc.Lookup(name).(*types.Func)
+		if !ok || !f.Exported() {
+			continue
+		}
+		sig := f.Type().(*types.Signature)
+		if sig.Recv() != nil || sig.Results().Len() != 1 || sig.Params().Len() != 1 {
+			continue
+		}
+		if n := namedOf(sig.Results().At(0).Type()); n == nil || n.Obj().Name() != "Option" || n.Obj().Pkg().Path() != modV2 {
+			continue
+		}
+		fn := c.Prog.FuncValue(f)
+		if fn == nil || len(fn.AnonFuncs) != 1 {
+			continue
+		}
+		key := "option-constructor@" + fnKey(fn)
+		g := fn.AnonFuncs[0]
+		var stores []*ssa.Store
+		eachInstr(g, func(in ssa.Instruction) {
+			if st, ok := in.(*ssa.Store); ok {
+				if _, isFA := st.Addr.(*ssa.FieldAddr); isFA {
+					stores = append(stores, st)
+				}
+			}
+		})
+		bad := ""
+		switch {
+		case len(stores) != 1:
+			bad = fmt.Sprintf("stores %d Options fields, expected exactly one", len(stores))
+		default:
+			fa := stores[0].Addr.(*ssa.FieldAddr)
+			fv := fieldVar(fa.X.Type(), fa.Field)
+			val := canon(stores[0].Val)
+			var src ssa.Value
+			if fvr, ok := val.(*ssa.FreeVar); ok {
+				src = freeVarBinding(fvr)
+			}
+			if ld, ok := val.(*ssa.UnOp); ok && ld.Op == token.MUL {
+				if fvr, ok := ld.X.(*ssa.FreeVar); ok {
+					if b := freeVarBinding(fvr); b != nil {
+						if sts := storesTo(b); len(sts) == 1 {
+							src = sts[0].Val
+						}
+					}
+				}
+			}
+			switch {
+			case fv == nil:
+				bad = "stored field not resolved"
+			case norm(fv.Name()) != norm(name):
+				bad = fmt.Sprintf("%s stores Options.%s: the option configures a different field than the one it is named after", name, fv.Name())
+			case src == nil || canon(src) != ssa.Value(fn.Params[0]):
+				bad = fmt.Sprintf("%s does not store its own argument unmodified into Options.%s (negated, constant or taken from elsewhere)", name, fv.Name())
+			}
+		}
+		r.Check(bad == "", key, c.Pos(fn.Pos()), "stores its argument into the field it is named after", bad)
+	}
+}
